@@ -3,6 +3,7 @@ package main
 import (
 	"fmt"
 	"os"
+	"strings"
 )
 
 // debug helper: VERIF_DUMP=pkg:recv:name prints the CFG of a function
@@ -33,5 +34,14 @@ func init() {
 		}
 		f := c.P.FlowOfFunc(fi)
 		fmt.Println(f.G.Format(c.P.Fset))
+	})
+	// LOCKS: discovery run of the lock-balance rule over every server package
+	register("LOCKS", func(c *Check) {
+		c.Rule("L", "lock balance (discovery)", 0)
+		var rels []string
+		for _, pk := range c.P.ServerPkgs() {
+			rels = append(rels, strings.TrimPrefix(strings.TrimPrefix(pk.PkgPath, modPath), "/"))
+		}
+		fmt.Println("pairs:", lockBalance(c, "L", rels, nil))
 	})
 }
